@@ -129,7 +129,7 @@ def run(ctx):
                             r4.violate("C08|R4|%s|app-type|%s" % (al, ty), "application value moved into every connection task has shared state: %s" % bad_, t["span"]["file"], t["span"]["line"], e.src)
 
     # R5 / positive control: env writers exist and are start-up only
-    r5 = chk.rule("R5-env-writers-startup-only", "every env writer in the four crates is unreachable from the roots and reachable from main only before the accept loop starts", floor=12)
+    r5 = chk.rule("R5-env-writers-startup-only", "every env writer in the four crates is unreachable from the roots and reachable from main only before the accept loop starts", floor=1)
     main_seen = G.reachable([R.main]) if R.main else {}
     writers = []
     for fn in F.fns.values():
